@@ -16,6 +16,7 @@ def clock_init(c):
     g['g_posts'] = z3.IntVal(0)
     g['g_last_post_time'] = c.fresh('no_post_yet', z3.IntSort())
     g['g_kinds_ok'] = z3.BoolVal(True)
+    g['g_cancelled'] = z3.BoolVal(False)        # somebody else cleared this source's run event (cancel_event(s), stop)
     c.pyghost['t0'] = g['g_now']
 
 
@@ -24,6 +25,12 @@ def sleep_hook(it, secs):
     c, g = it.c, it.c.ghost
     if 'g_now' in g:
         g['g_now'] = g['g_now'] + c.to_int(secs)
+    r = c.pyghost.get('runner')
+    if r is not None and r.get('may_cancel') and r.get('run_event') is not None:
+        # while the timer thread sleeps another thread may cancel the source: it clears the run event
+        if c.choose(2, 'cancelled-while-sleeping'):
+            c.hset(SRef(r['run_event'], 'ThreadEvent'), 'flag', z3.BoolVal(False))
+            g['g_cancelled'] = z3.BoolVal(True)
     return None
 
 
@@ -39,6 +46,9 @@ def ao_post(kind):
         if exp is not None and 'g_now' in g:
             d0, p, want_kind, ev = exp['d0'], exp['period'], exp['kind'], exp['event']
             t0 = c.pyghost['t0']
+            if exp.get('may_cancel'):
+                c.prove('runner:cancel/never-posts-after-its-run-event-was-cleared', z3.Not(g['g_cancelled']),
+                        tags=('C11', 'C12'))
             first = g['g_posts'] == 0
             c.prove('runner:timing/first-post-after-p-if-deferred-else-at-once',
                     z3.Implies(first, g['g_now'] == t0 + z3.If(d0, p, 0)), tags=('C10',))
@@ -69,7 +79,7 @@ def runner_spec():
         r = c.pyghost['runner']
         return [('activations-equal-posts', z3.And(ta == g['g_posts'], ta >= 0)),
                 ('never-more-than-requested', z3.Implies(n >= 1, ta <= n)),
-                ('runs-exactly-while-postings-remain', flag == z3.Or(n == 0, ta < n)),
+                ('runs-exactly-while-postings-remain', flag == z3.And(z3.Not(g['g_cancelled']), z3.Or(n == 0, ta < n))),
                 ('before-first-post', z3.Implies(g['g_posts'] == 0, z3.And(deferred == r['d0'], g['g_now'] == c.pyghost['t0']))),
                 ('after-a-post', z3.Implies(g['g_posts'] >= 1, z3.And(deferred, g['g_now'] == g['g_last_post_time']))),
                 ('right-queue-kind', g['g_kinds_ok']),
@@ -84,7 +94,7 @@ def runner_spec():
         return (n >= 1, n - ta)
 
     s = LoopSpec(inv, mods, var, 'timer-runner')
-    s.ghost_modifies = ['g_now', 'g_posts', 'g_last_post_time', 'g_kinds_ok']
+    s.ghost_modifies = ['g_now', 'g_posts', 'g_last_post_time', 'g_kinds_ok', 'g_cancelled']
     return s
 
 
